@@ -455,6 +455,8 @@ func (ex *Exec) reportConcurrency(h *Harness, tag, msg string) {
 	res, m := ex.check(nil, true)
 	if res != Sat {
 		m = nil
+	} else {
+		m = ex.realize(nil, m)
 	}
 	in, order := ex.modelInputs(m)
 	v := &Violation{Harness: h.Name, Tag: tag, Kind: "race", Msg: msg, Inputs: in, Order: order, Region: inKnown}
